@@ -65,6 +65,9 @@ func c02ConcCase(c *Case, rng *Rng) {
 		e.op(e.cl.nsSet(ns, 0))
 	}
 	spec := c02MonSpec{id: 1, kind: 1, keep: rng.Bool(), flt: rng.Intn(3)}
+	if spec.flt == 1 && rng.Chance(50) {
+		spec.prog = c02GenProg(rng)
+	}
 	perm := []int{1, 2, 3, 4}
 	rng.Shuffle(4, func(i, j int) { perm[i], perm[j] = perm[j], perm[i] })
 	spec.nss = append([]int{}, perm[:rng.Range(2, 3)]...)
